@@ -156,12 +156,53 @@ def _strings(rng, cfg):
     base = _exact_gc(rng, rng.choice([k, 2 * k]), k // 2)
     for _ in range(2):
         p = rng.randrange(len(base))
-        out.append(("foreign", base[:p] + rng.choice(["N", "a", "t", "U", "-", " ", "É"]) + base[p + 1:]))
+        out.append(("foreign", base[:p] + rng.choice(["N", "a", "t", "U", "-", " ", "É", "\n", "\r", "\t"]) + base[p + 1:]))
+    for ws in ("\n", "\r\n", " ", "\t", "\x00"):
+        if rng.random() < 0.5:
+            out.append(("foreign-tail", base + ws))            # an otherwise acceptable strand followed by white space
+            out.append(("foreign-tail", ws + base))
     return out
+
+
+def _long_boundary(rng, cfg):
+    """Strings of 1000-1600 nt whose first (or last, or one inner) window sits exactly on a GC bound."""
+    k = cfg["k"]
+    lo, hi = Fraction(cfg["gc"][0]) * k, Fraction(cfg["gc"][1]) * k
+    import math
+    targets = [t for t in (math.ceil(lo), math.floor(hi), math.ceil(lo) - 1, math.floor(hi) + 1) if 0 <= t <= k]
+    mid = (math.ceil(lo) + math.floor(hi)) // 2
+    n = rng.randint(1000, 1600)
+    body = []
+    while len(body) < n:      # windows of the body stay near the middle of the range: period-k pattern with `mid` G/C
+        unit = list(_exact_gc(rng, k, max(0, min(k, mid))))
+        body.extend(unit)
+    body = "".join(body[:n])
+    t = rng.choice(targets)
+    edge = _exact_gc(rng, k, t)
+    if rng.random() < 0.5 and edge:
+        edge = rng.choice("GC") + edge[1:] if edge[0] in "AT" and t > 0 else edge
+    where = rng.choice(["first", "last", "inner"])
+    if where == "first":
+        return edge + body
+    if where == "last":
+        return body + edge
+    p = rng.randrange(k, n - 2 * k)
+    return body[:p] + edge + body[p + k:]
 
 
 def generate(ctx):
     rng = ctx.rng
+    for _ in range(ctx.pick(40, 400)):
+        cfg = _config(rng)
+        if cfg["gc"] is None or Fraction(cfg["gc"][0]) > Fraction(cfg["gc"][1]):
+            continue
+        cfg = dict(cfg, run=None, motifs=None)
+        yield "valid", dict(cfg=cfg, s=_long_boundary(rng, cfg), tag="long")
+    for _ in range(ctx.pick(150, 1500)):
+        cfg = _config(rng)
+        base = [s for _t, s in _strings(rng, cfg) if all(c in "ACGT" for c in s)]
+        yield "growth", dict(cfg=cfg, pieces=[rng.choice(base) if base else "A" for _ in range(rng.randint(2, 5))],
+                             cuts=[rng.randint(1, 4) for _ in range(5)])
     for _ in range(ctx.pick(1500, 20000)):
         cfg = _config(rng)
         for tag, s in _strings(rng, cfg):
@@ -238,7 +279,37 @@ def check_valid(ctx, case):
     ctx.done("valid", case, len(s) >= 2 and configured)
 
 
-CHECKS = {"valid": check_valid}
+def check_growth(ctx, case):
+    """One filter object judges a strand that grows step by step (the way a tree-based encoder uses it): every verdict
+    must depend on the configuration and the current string only, not on what the object was asked before."""
+    dsw = import_dsw()
+    cfg = case["cfg"]
+    out = monitored(_build, 10000, dsw, cfg)
+    if out.kind != "ok":
+        return
+    f = out.value
+    what = "LocalBioFilter(k=%d, run=%s, gc=%s, motifs=%s), one object" % (cfg["k"], cfg["run"], cfg["gc"], cfg["motifs"])
+    grown = ""
+    steps = 0
+    for piece, cut in zip(case["pieces"], case["cuts"]):
+        for i in range(0, len(piece), cut):
+            grown += piece[i:i + cut]
+            for only_last in (False, True):
+                want, why = ref_valid(cfg, grown, only_last)
+                got = _lib(ctx, f, grown, only_last, what)
+                if got is not None and got != want:
+                    ctx.fail("verdict-depends-on-history:" + why, "%s: after judging its prefixes, valid(%r, only_last=%s) = %s, predicate says %s (%s)" % (
+                        what, grown, only_last, got, want, why), "growth", case)
+                    return
+            steps += 1
+            if steps > 60:
+                break
+    ctx.cls("growing strand judged by one filter object")
+    ctx.evaluations += steps
+    ctx.done("growth", case, True)
+
+
+CHECKS = {"valid": check_valid, "growth": check_growth}
 
 
 def floors(agg, tier):
@@ -250,7 +321,8 @@ def floors(agg, tier):
             need = 500 if not (ol and why == "gc-short") else 100
             if c.get(name, 0) < need:
                 out.append("%s decided %d < %d" % (name, c.get(name, 0), need))
-    for name, need in (("gc-count within 1 of lo bound", 100), ("gc-count within 1 of hi bound", 100),
+    for name, need in (("growing strand judged by one filter object", 500), ("string|long", 100), ("string|foreign-tail", 500),
+                       ("gc-count within 1 of lo bound", 100), ("gc-count within 1 of hi bound", 100),
                        ("metamorphic|revcomp", 1000), ("metamorphic|window-conjunction", 1000)):
         if c.get(name, 0) < need:
             out.append("%s observed %d < %d" % (name, c.get(name, 0), need))
